@@ -340,6 +340,50 @@ def job_quadrature(seq):
     return recs
 
 
+def job_quadrature_pols(order):
+    """two polarisations, two antennas: noise added to one polarisation's background (and to single streams) reaches
+    exactly the streams of that polarisation; order = sequence over 'X','Y' (background x / y) and 'a','b' (own streams)"""
+    recs = []
+    px = proxy()
+    vs = [Sym(z3.Real(f'v_std_{i}')) for i in range(len(order))]
+    pre = [v.t >= 0 for v in vs]
+    with volt_patches(proxy=px):
+        def run():
+            arr = A.MultiAntennaArray(2, sample_rate=1024.0, num_pols=2, delays=[0, 1], seed=3)
+            tgt = {'X': arr.bg_x, 'Y': arr.bg_y, 'a': arr.antennas[0].x, 'b': arr.antennas[1].y}
+            for c, v in zip(order, vs):
+                tgt[c].add_noise(0, v)
+            return [[ant.x.get_total_noise_std(), ant.y.get_total_noise_std()] for ant in arr.antennas]
+        leaf = core.run_single(run, pre)
+    tot = leaf.value
+    dis = []
+    for ai in range(2):
+        for pi, pol in enumerate('XY'):
+            want = sum([v.t * v.t for c, v in zip(order, vs) if c == pol or (c == 'a' and (ai, pi) == (0, 0)) or (c == 'b' and (ai, pi) == (1, 1))], RV(0))
+            dis += [lift(tot[ai][pi]) * lift(tot[ai][pi]) != want, lift(tot[ai][pi]) < 0]
+    r, m = core.check(pre + leaf.side + [z3.Or(*dis)], timeout_ms=60000)
+    recs.append(q(f"C11:quadrature-pols:{order}", r))
+    if r == 'sat':
+        recs.append(cex('C11:quadrature:pols', f'after the add_noise sequence {order} a stream\'s total deviation is not its own noise and its own polarisation\'s background in quadrature', dict(fn='quadrature_pols', order=order), name=f"C11:quadrature-pols:{order}"))
+    return recs
+
+
+def replay_quadrature_pols(p):
+    from setigen.voltage import antenna as an
+    arr = an.MultiAntennaArray(2, sample_rate=1024.0, num_pols=2, delays=[0, 1], seed=3)
+    tgt = {'X': arr.bg_x, 'Y': arr.bg_y, 'a': arr.antennas[0].x, 'b': arr.antennas[1].y}
+    vs = [1.5, 0.7, 2.0, 0.3][:len(p['order'])]
+    for c, v in zip(p['order'], vs):
+        tgt[c].add_noise(0, v)
+    msgs = []
+    for ai, ant in enumerate(arr.antennas):
+        for pi, (pol, st) in enumerate(zip('XY', (ant.x, ant.y))):
+            want = np.sqrt(sum(v * v for c, v in zip(p['order'], vs) if c == pol or (c == 'a' and (ai, pi) == (0, 0)) or (c == 'b' and (ai, pi) == (1, 1))))
+            if not np.isclose(st.get_total_noise_std(), want):
+                msgs.append(f"antenna {ai} pol {pol}: total {st.get_total_noise_std()!r}, expected {want!r}")
+    return bool(msgs), f"sequence {p['order']}: " + ('; '.join(msgs) or 'per-polarisation quadrature sums ok')
+
+
 # ------------------------------------------------------------------ concrete oracles
 def replay_add_noise(p):
     import setigen as stg
@@ -493,7 +537,7 @@ def replay_quadrature(p):
     return bad, f"sequence {p['seq']}: total {st.get_total_noise_std()} (expected {want}), other antenna {other.get_total_noise_std()} (expected {want_o})"
 
 
-REPLAYS = {'add_noise': replay_add_noise, 'from_obs': replay_from_obs, 'errors': replay_errors, 'snr': replay_snr, 'quadrature': replay_quadrature}
+REPLAYS = {'add_noise': replay_add_noise, 'from_obs': replay_from_obs, 'errors': replay_errors, 'snr': replay_snr, 'quadrature': replay_quadrature, 'quadrature_pols': replay_quadrature_pols}
 
 
 def main():
@@ -516,6 +560,8 @@ def main():
                     jobs.append(('job_from_obs', (ntype, share, with_min, nlen)))
     for T in (1, 4, 16):
         jobs.append(('job_snr', (T,)))
+    for order in ('X', 'Y', 'XY', 'YX', 'XaY', 'bYX', 'XYab'):
+        jobs.append(('job_quadrature_pols', (order,)))
     for seq in ('s', 'b', 'ss', 'sb', 'bs', 'bb', 'ssb', 'sbs', 'bbs', 'sss'):
         jobs.append(('job_quadrature', (seq,)))
     ck.bounds = dict(shapes='2x2 / 2x3', tables='2 (thorough 3) entries, symbolic', noise_sequences='<= 3 add_noise calls on stream / background')
